@@ -101,7 +101,13 @@ var whitelist = []FuncSpec{
 	{"pkg/provider", "Config", "getMetadata"},
 	{"pkg/provider", "Provider", "GetMetadata"},
 	{"pkg/provider", "Provider", "metadataHandle"},
+	{"pkg/provider/serviceprovider", "ServiceProvider", "ValidateRedirectSignature"},
 }
+
+// standaloneOnly: translated for theorems of their own; callers keep consulting the (legacy) oracle of the same name, so
+// that the definitions and proofs about the callers stay as they are (the link is a hypothesis of the theorems that
+// combine them: the oracle's answers are the generated function's)
+var standaloneOnly = map[string]bool{"pkg/provider/serviceprovider.ServiceProvider.ValidateRedirectSignature": true}
 
 // extraFields are struct fields the hand-written handler models read although no translated function does.
 var extraFields = map[string][]string{
@@ -443,6 +449,9 @@ func (w *world) leanType(t types.Type) string {
 			return "Unit"
 		}
 	case *types.Interface:
+		if tt.NumMethods() == 0 {
+			return "(Option Unit)" // interface{} holding some value or nil (only its nil-ness is modelled)
+		}
 		return "Unit"
 	}
 	if t.String() == "error" {
@@ -1406,7 +1415,7 @@ var storageEffects = map[string]bool{"CreateAuthRequest": true}
 var outParamMethods = map[string]int{"SetUserinfoWithUserID": 1, "SetUserinfoWithLoginName": 0}
 
 // funcOracles: untranslated package-level functions that may be called as oracles (typed by their Go signature)
-var funcOracles = map[string]bool{"createRedirectSignature": true, "createPostSignature": true, "Marshal": true, "DeflateAndBase64": true, "DecodeLogoutRequest": true, "DecodeAuthNRequest": true, "DecodeAttributeQuery": true, "GetSigner": true, "Create": true}
+var funcOracles = map[string]bool{"createRedirectSignature": true, "createPostSignature": true, "Marshal": true, "DeflateAndBase64": true, "DecodeLogoutRequest": true, "DecodeAuthNRequest": true, "DecodeAttributeQuery": true, "GetSigner": true, "Create": true, "ValidateRedirect": true}
 
 // scanInout finds the pointer parameters of f that the body assigns through, directly or by passing them to a
 // translated callee that does (callees are translated first: whitelist order).
@@ -2454,6 +2463,9 @@ func (c *tctx) calleeFn(e ast.Expr) *fn {
 		return nil
 	}
 	if f, ok := c.w.byObj[obj]; ok {
+		if standaloneOnly[f.spec.key()] {
+			return nil
+		}
 		if f.failed != "" {
 			panic("callee " + f.spec.key() + " untranslated: " + f.failed)
 		}
